@@ -129,7 +129,7 @@ Definition sexec_stmt (st : sstate) (s : stmt) : sstate * sx :=
                | PV v => cc_eqb (obj a) (obj v)
                | _ => false
                end in
-      (st, SL [sx_bool b; sx_bool b])
+      (st, sx_eq_obs b)
   | OChunkIndex c i => (st, sx_res sx_chunk (bind (py_index (c_text c) i) (fun ch => Ok (clone c [ch]))))
   | OChunkSlice c lo hi => (st, sx_res sx_chunk (Ok (clone c (py_slice (c_text c) lo hi))))
   | OChunkEq c p => (st, SL [])
